@@ -486,12 +486,21 @@ pub fn model_set(rules: &[Rule], facts: &[Fact], syms: &Symbols, nn: NonNumeric)
 /// prod_{f in W} p_f * prod_{f not in W} (1-p_f) * [fact in model(certain + W)].
 /// Facts that are in no positive-weight world's model are not listed. n <= 20.
 pub fn worlds(rules: &[Rule], certain: &[Fact], uncertain: &[(Fact, f64)], syms: &Symbols, nn: NonNumeric) -> Result<BTreeMap<Fact, f64>, String> {
+    stratify(rules)?;
+    worlds_with(certain, uncertain, &|facts: &[Fact]| model_set(rules, facts, syms, nn))
+}
+
+/// R-worlds with an arbitrary per-world evaluator.
+pub fn worlds_with(certain: &[Fact], uncertain: &[(Fact, f64)], model_of: &dyn Fn(&[Fact]) -> Result<BTreeSet<Fact>, String>) -> Result<BTreeMap<Fact, f64>, String> {
     let n = uncertain.len();
     assert!(n <= 20, "R-worlds: too many uncertain facts");
-    // the same fact listed twice as uncertain would not be independent evidence
+    // the same fact listed twice (or also as certain) would not be independent evidence
     let distinct: BTreeSet<Fact> = uncertain.iter().map(|u| u.0).collect();
     assert!(distinct.len() == n, "R-worlds: duplicate uncertain fact");
-    stratify(rules)?;
+    assert!(certain.iter().all(|f| !distinct.contains(f)), "R-worlds: fact both certain and uncertain");
+    for (_, p) in uncertain {
+        assert!((0.0..=1.0).contains(p), "R-worlds: probability outside [0,1]");
+    }
     let mut acc: BTreeMap<Fact, f64> = BTreeMap::new();
     let mut facts: Vec<Fact> = Vec::with_capacity(certain.len() + n);
     for mask in 0u32..(1u32 << n) {
@@ -512,11 +521,39 @@ pub fn worlds(rules: &[Rule], certain: &[Fact], uncertain: &[(Fact, f64)], syms:
                 facts.push(*f);
             }
         }
-        for f in model_set(rules, &facts, syms, nn)? {
+        for f in model_of(&facts)? {
             *acc.entry(f).or_insert(0.0) += w;
         }
     }
     Ok(acc)
+}
+
+/// Number of ground rule instances that become applicable only in a later round than the one in
+/// which their conclusion first appeared (a second proof arriving late: what a tag-propagating
+/// engine has to re-trigger consumers for). Computed on the Boolean least model with stages.
+pub fn late_derivations(rules: &[Rule], facts: &[Fact], syms: &Symbols, nn: NonNumeric) -> Result<u32, String> {
+    let m = least_model(rules, facts, syms, nn)?;
+    let set: BTreeSet<Fact> = m.keys().cloned().collect();
+    let mut n = 0;
+    for r in rules {
+        for inst in instances(r, &set, syms, nn) {
+            if inst.neg.iter().any(|g| set.contains(g)) {
+                continue;
+            }
+            let b = inst.body.iter().map(|f| m[f]).max().unwrap_or(0);
+            for h in &inst.heads {
+                if inst.body.contains(h) {
+                    continue;
+                }
+                if let Some(hs) = m.get(h) {
+                    if b + 1 > *hs && *hs > 0 {
+                        n += 1;
+                    }
+                }
+            }
+        }
+    }
+    Ok(n)
 }
 
 // ---------------------------------------------------------------------------------------------
@@ -834,6 +871,10 @@ pub fn selftest() -> Vec<String> {
     check("worlds_negation", (w[&f("a", "q", "b")] - 0.35).abs() < 1e-12, format!("{:?}", w));
     // cycle: t(a,a) needs both edges
     let w = worlds(&tc, &[], &[(f("a", "p", "b"), 0.5), (f("b", "p", "a"), 0.3)], &sy, nn).unwrap();
+    // 14b. late second proof: t(a,c) appears in round 1 (edge a-c) and gets its proof through b in round 2
+    let short = vec![f("a", "p", "b"), f("b", "p", "c"), f("a", "p", "c")];
+    check("late_derivation_shortcut", late_derivations(&tc, &short, &sy, nn) == Ok(1), format!("{:?}", late_derivations(&tc, &short, &sy, nn)));
+    check("late_derivation_chain_none", late_derivations(&tc, &chain, &sy, nn) == Ok(0), format!("{:?}", late_derivations(&tc, &chain, &sy, nn)));
     // 15. text form round trip
     let txt = "q(?x,?z), r(?z,?x) :- p(?x,?y), ?w(?y,?z), not r(?x,?z), ?z > 5, ?x != ?y";
     match parse_rule(txt, &sy) {
